@@ -40,6 +40,8 @@ type Hub struct {
 	nextID  int
 	// Window: how many undelivered messages a server may have queued before its Send blocks (flow control).
 	Window int
+	// GateRequests: a call's request reaches the server only when the scheduler says so (Stream.DeliverRequest)
+	GateRequests bool
 }
 
 var (
@@ -125,6 +127,7 @@ type Stream struct {
 	srvDone   bool
 	srvErr    error
 	broken    error // the stream was torn down (fault or close): both sides see it
+	reqStart  func() // gated request not yet delivered to the server
 	Sent      int
 	Delivered int
 	started   bool
@@ -190,11 +193,36 @@ func (cs *clientStream) SendMsg(m any) error {
 		return nil
 	}
 	req := proto.Clone(m.(proto.Message))
-	go func() {
-		err := f(req, &ServerStream{s})
-		s.finish(err)
-	}()
+	start := func() {
+		go func() {
+			err := f(req, &ServerStream{s})
+			s.finish(err)
+		}()
+	}
+	if h.GateRequests {
+		// the request is in flight until the scheduler delivers it (DeliverRequest): the server may change meanwhile
+		s.mu.Lock()
+		s.reqStart = start
+		s.mu.Unlock()
+		return nil
+	}
+	start()
 	return nil
+}
+
+// RequestPending: the call's request has been sent and not yet reached the server (Hub.GateRequests).
+func (s *Stream) RequestPending() bool { s.mu.Lock(); defer s.mu.Unlock(); return s.reqStart != nil && s.broken == nil }
+
+// DeliverRequest hands the request to the server's handler.
+func (s *Stream) DeliverRequest() {
+	s.mu.Lock()
+	f := s.reqStart
+	s.reqStart = nil
+	broken := s.broken
+	s.mu.Unlock()
+	if f != nil && broken == nil {
+		f()
+	}
 }
 
 func (cs *clientStream) RecvMsg(m any) error {
